@@ -1,4 +1,4 @@
 SPECIFICATION Spec
-CONSTANTS MaxConn = 3  Msgs = {1, 2, 3}  MaxCnt = 2  ChanCap = 2  MaxInject = 5  RouteByID = TRUE  DeleteOnClose = TRUE  FreshIDs = TRUE
+CONSTANTS MaxConn = 3  Msgs = {1, 2, 3}  MaxCnt = 2  ChanCap = 2  MaxInject = 5  RouteByID = TRUE  DeleteOnClose = TRUE  FreshIDs = TRUE  SendUnderLock = TRUE
 INVARIANTS NoViolation NoSendOnClosedChannel
 CHECK_DEADLOCK FALSE
